@@ -11,11 +11,14 @@ cd $WT || exit 2
 DEMOS=$(git ls-files --others --exclude-standard)
 echo "demo files: $DEMOS"
 PKGS=$(for f in $DEMOS; do dirname $f; done | sort -u | sed 's#^#./#')
+# only the demonstration's own tests (package suites that need MySQL fail on their own)
+RUNPAT=$(cat $DEMOS 2>/dev/null | grep -oE '^func (Test|Example)[A-Za-z0-9_]*' | awk '{print $2}' | paste -sd'|')
+[ -n "$RUNPAT" ] && RUNFLAG="-run ^($RUNPAT)\$" || RUNFLAG=""
 # normalise: start from clean tree + demos
 git checkout -q -- . ; 
-echo "== build+demo WITHOUT patch"; go build ./... && go test -vet=off -count=1 -timeout 120s $PKGS 2>&1 | tail -3
+echo "== build+demo WITHOUT patch"; go build ./... && go test -vet=off -count=1 -timeout 120s $RUNFLAG $PKGS 2>&1 | tail -3
 git apply $PATCH || { echo "patch does not apply"; exit 2; }
-echo "== build+demo WITH patch"; go build ./... && go test -vet=off -count=1 -timeout 120s $PKGS 2>&1 | grep -E "^(--- FAIL|FAIL|ok|panic)" | head -8
+echo "== build+demo WITH patch"; go build ./... && go test -vet=off -count=1 -timeout 120s $RUNFLAG $PKGS 2>&1 | grep -E "^(--- FAIL|FAIL|ok|panic)" | head -8
 echo "== suite WITH patch (demo moved aside)"
 mkdir -p /tmp/seed/$ID.aside; for f in $DEMOS; do mv $f /tmp/seed/$ID.aside/$(echo $f | tr / _); done
 /verif/scripts/runsuite.sh $WT
